@@ -24,6 +24,10 @@ private void fire(string k) {
 int api_ok(mixed a) { mixed t = ({ a }); string s = "m" + sizeof(t); return sizeof(t) + strlen(s); }
 mixed error_handler(mapping m, int caught) {
   // policy "eh_catch": a master whose error handler itself uses catch (one that catches an error, one that does not)
+  // policy "eh_objname": the handler formats an object with "%O", which makes the driver safe_apply() the master's object_name()
+  if (pol["eh_objname"]) { string t = sprintf("%O", this_object()); if (!t) last_error = "eh_objname broken"; }
+  // policy "eh_catch_ok": the handler evaluates a catch that catches nothing
+  if (pol["eh_catch_ok"]) { mixed e0 = catch(sizeof(m)); if (e0) last_error = "eh_catch_ok broken"; }
   if (pol["eh_catch"]) { mixed e1, e2; e1 = catch(error("inner\n")); e2 = catch(sizeof(m)); if (!e1 || e2) last_error = "eh_catch broken"; }
   if (!caught) last_error = m["error"];
   errors += ({ ({ m["error"], caught }) });
